@@ -243,7 +243,30 @@ class Profile:
     def allows_explicit_ids(self):
         return self.name in ("str", "typed_str", "typed_str_chk")
 
-    def build(self, spec):
+    def build(self, spec, late_move=None):
+        tree = self._build(spec)
+        if late_move is not None and not self.typed:
+            # registration order != position: the occurrence of some data that was registered LAST is moved in front
+            # of an earlier one (typed trees do not support move_to)
+            w = walk(tree)
+            groups = {}
+            for n in w.pre:
+                groups.setdefault(n.data_id, []).append(n)
+            cands = [g for g in groups.values() if len(g) >= 3]
+            if cands:
+                g = cands[late_move % len(cands)]
+                last, second = g[-1], g[1]
+                anchor = second
+                while w.parent[id(anchor)] is not None:
+                    anchor = w.parent[id(anchor)]
+                try:
+                    if anchor is not last and not last.is_ancestor_of(anchor):
+                        last.move_to(tree, before=anchor)
+                except Exception:  # noqa: BLE001  (a refused move is simply not made)
+                    pass
+        return tree
+
+    def _build(self, spec):
         tree = self.new_tree()
         seq = [0]
 
